@@ -183,6 +183,39 @@ type witness struct {
 	S  string `json:"s"`
 	// Arg is sub for ContainsFold and sep for SplitTrimmed.
 	Arg string `json:"arg"`
+	// PrimeS and PrimeArg, if set, are the operands of the call made just
+	// before this one (history family).
+	PrimeS   string `json:"prime_s,omitempty"`
+	PrimeArg string `json:"prime_arg,omitempty"`
+}
+
+// prime, when set, holds the operands of the call made just before the one
+// being evaluated; violations then carry it in their key and witness, so that
+// the replay repeats the two-call history.
+var prime *[2]string
+
+func viol(c *runlib.Ctx, key, what string, w witness) {
+	if prime != nil {
+		key = strings.Replace(key, fnFold+"/", fnFold+"/after-another-call/", 1)
+		what += fmt.Sprintf(` [called right after ContainsFold("%s", "%s"); the verdict depends on the call history]`,
+			enum.Hex(prime[0]), enum.Hex(prime[1]))
+		w.PrimeS, w.PrimeArg = enum.Hex(prime[0]), enum.Hex(prime[1])
+		if w.PrimeS == "" && w.PrimeArg == "" {
+			w.PrimeArg = "\\x00"
+		}
+	}
+
+	c.Violation(key, what, w)
+}
+
+// primedFold makes one call on (ps, psub) and then evaluates (s, sub): the
+// function is pure, so the verdict on a pair may not depend on the call made
+// before it (a memo of the previous needle's fold orbit, a reused buffer).
+func primedFold(c *runlib.Ctx, ps, psub string, s, sub *operand) {
+	runlib.Try(func() { stringutil.ContainsFold(ps, psub) })
+	prime = &[2]string{ps, psub}
+	oneFold(c, s, sub)
+	prime = nil
 }
 
 const (
@@ -204,11 +237,11 @@ func oneFold(c *runlib.Ctx, s, sub *operand) (nontrivial bool) {
 	c.InFlight(fnFold + `("` + s.hex + `", "` + sub.hex + `")`)
 
 	key := fnFold + "/" + s.hex + "/" + sub.hex
-	w := witness{fnFold, s.hex, sub.hex}
+	w := witness{Fn: fnFold, S: s.hex, Arg: sub.hex}
 
 	var got bool
 	if pv, _ := runlib.Try(func() { got = stringutil.ContainsFold(s.str, sub.str) }); pv != nil {
-		c.Violation(key, fmt.Sprintf(`ContainsFold("%s", "%s") panicked: %s`, s.hex, sub.hex, panicText(pv)), w)
+		viol(c, key, fmt.Sprintf(`ContainsFold("%s", "%s") panicked: %s`, s.hex, sub.hex, panicText(pv)), w)
 
 		return false
 	}
@@ -236,7 +269,7 @@ func oneFold(c *runlib.Ctx, s, sub *operand) (nontrivial bool) {
 			what += fmt.Sprintf(" (ASCII operands: strings.Contains(ToLower(s), ToLower(sub)) = %v)", want)
 		}
 
-		c.Violation(key, what, w)
+		viol(c, key, what, w)
 	}
 
 	return at > 0 || sub.firstOrbit > 2
@@ -264,7 +297,7 @@ func oneSplit(c *runlib.Ctx, s, sHex, sep string) (nontrivial bool) {
 	c.InFlight(fnSplit + `("` + sHex + `", "` + sepHex + `")`)
 
 	key := fnSplit + "/" + sHex + "/sep=" + sepHex
-	w := witness{fnSplit, sHex, sepHex}
+	w := witness{Fn: fnSplit, S: sHex, Arg: sepHex}
 
 	var got []string
 	if pv, _ := runlib.Try(func() { got = stringutil.SplitTrimmed(s, sep) }); pv != nil {
@@ -298,7 +331,11 @@ func main() {
 			switch w.Fn {
 			case fnFold:
 				s, sub := operandOf(enum.Unhex(w.S)), operandOf(enum.Unhex(w.Arg))
-				oneFold(c, &s, &sub)
+				if w.PrimeArg != "" || w.PrimeS != "" {
+					primedFold(c, enum.Unhex(w.PrimeS), enum.Unhex(w.PrimeArg), &s, &sub)
+				} else {
+					oneFold(c, &s, &sub)
+				}
 			case fnSplit:
 				oneSplit(c, enum.Unhex(w.S), w.S, enum.Unhex(w.Arg))
 			default:
@@ -367,6 +404,45 @@ func main() {
 			// (c) three-rune needles against all haystacks of <= 4 runes, both
 			// over the orbit alphabet.
 			fold("fold-orbit16-s<=4-sub=3", foldOrbit16, 0, 4, operands(foldOrbit16, 3, 3))
+		}
+
+		// (h) history: ASCII punctuation, digits and control bytes that differ
+		// from each other in one bit (0x20, 0x10, 0x40) next to letters; every
+		// pair is evaluated right after a call on the pair with that bit of
+		// every first-character occurrence flipped, and after a call on an
+		// unrelated needle.
+		histAlpha := []rune{'[', '{', '^', '~', '@', '`', '0', 0x10, 'P', 'p', 'k', 'K', ' '}
+		histS := operands(histAlpha, 1, runlib.Pick(c, 3, 4))
+		histSub := operands(histAlpha, 1, 2)
+		shh := sh()
+		for i := range histS {
+			if !shh.Mine() {
+				continue
+			}
+
+			s0 := &histS[i]
+			for j := range histSub {
+				sub := &histSub[j]
+				c.Family("fold-history")
+				first := sub.str[0]
+				for _, bit := range []byte{0x20, 0x10, 0x40} {
+					flip := func(x string) string {
+						b := []byte(x)
+						for k := range b {
+							if b[k] == first {
+								b[k] ^= bit
+							}
+						}
+
+						return string(b)
+					}
+
+					primedFold(c, flip(s0.str), flip(sub.str), s0, sub)
+				}
+
+				primedFold(c, "zzzz", "z", s0, sub)
+				c.NontrivialInjective()
+			}
 		}
 
 		// (d) SplitTrimmed.
